@@ -146,6 +146,13 @@ theorem C09_reachable_wf {E : Impl.Env} (hidem : E.Idem) {db : Impl.Db}
     (h : Impl.Reachable E db) : db.Inv :=
   h.inv hidem
 
+/-- The same at full strength: for EVERY PEM-normalisation function `E.norm` (idempotent or not —
+    nested PEM, a decoder that is not a projection) every reachable database satisfies the invariant:
+    no list holds one entry twice, every entry has its list's size, sizes add up. -/
+theorem C09_reachable_wf_any_norm {E : Impl.Env} {db : Impl.Db}
+    (h : Impl.Reachable E db) : db.Inv :=
+  h.inv_raw
+
 /-! ### non-vacuity -/
 section Examples
 open GoUefi.Ex   -- brings the (scoped) `DecidableEq (Except _ _)` used by `decide` below
@@ -240,4 +247,5 @@ end GoUefi.C09
 #print axioms GoUefi.C09.C09_appendList
 #print axioms GoUefi.C09.C09_decoded_inv
 #print axioms GoUefi.C09.C09_reachable_wf
+#print axioms GoUefi.C09.C09_reachable_wf_any_norm
 #print axioms GoUefi.C09.C09_list_append_no_duplicate
